@@ -59,6 +59,7 @@ package baseapp
 // values here (they could hand back a context with another block gas meter)
 //@   may_exit
 //@   ensures [noflush] mode != 2 ==> ms.cwrites == old(ms.cwrites)
+//@   ensures [deliver-flushes] old(ms.cwrites) <= ms.cwrites && ms.cwrites <= old(ms.cwrites) + 2
 
 // C11: CheckTx never flushes a cache multistore; a transaction that cannot be decoded is answered with the decoder's error
 // and nothing is executed or flushed (the decoder is a function value: assumed to keep the multistore ghosts).
